@@ -487,7 +487,7 @@ Print Assumptions impl_burst7.
                 found.append({"kind": "input", "what": "crc7(%r) = %r, bit-serial CRC-7 gives %d" % (m, v, exp),
                               "fingerprint": "crc7-differs-from-bitwise", "input": m, "expected": exp, "got": v})
                 break
-            if v != exp and call(mod, m, forms[i]) != ("ok", exp):     # reproducible in the kind of buffer it was passed in
+            if v != exp and i < len(forms) and call(mod, m, forms[i]) != ("ok", exp):     # reproducible in the kind of buffer it was passed in
                 found.append({"kind": "input", "what": "crc7(<%s of %r>) = %r, bit-serial CRC-7 gives %d" % (FORMS[forms[i]], m, v, exp),
                               "fingerprint": "crc7-differs-from-bitwise-in-" + FORMS[forms[i]], "input": m, "form": forms[i],
                               "expected": exp, "got": v})
